@@ -610,6 +610,9 @@ class ExprMixin:
                 self.do_raise(state, "AttributeError", node, implicit=True, mro=("AttributeError", "Exception"))
                 return Bottom()
             if isinstance(o, (ListObj, DictObj, IterObj)):
+                pyt = {"list": list, "dict": dict}.get(o.kind)
+                if pyt is not None and not hasattr(pyt, attr) and "defaultdict" not in getattr(o, "flags", ()):
+                    return self._no_attr(obj, attr, node, state)
                 return ExtV(qual=f"{o.kind}.{attr}", bound=obj)
             if isinstance(o, ExtInst):
                 return ExtV(qual=f"{o.qual}.{attr}", bound=obj)
@@ -667,12 +670,21 @@ class ExprMixin:
                 return self.from_resolution(r, node, state, f"{modname}.{attr}")
             return self.bi.external_value(f"{obj.qual}.{attr}")
         if isinstance(obj, Str):
+            if not hasattr(str, attr):
+                return self._no_attr(obj, attr, node, state)
             return ExtV(qual=f"str.{attr}", bound=obj)
         if isinstance(obj, (Num, Bool)):
             if attr in ("real", "numerator"):
                 return obj
+            # attributes common to the kinds the value may have (int, float, bool); anything else is an AttributeError
+            kinds = obj.kinds if isinstance(obj, Num) and obj.kinds else frozenset({"int", "float", "bool"}) if isinstance(obj, Num) else frozenset({"bool"})
+            pyt = [{"int": int, "float": float, "bool": bool}[k] for k in kinds if k in ("int", "float", "bool")]
+            if pyt and not any(hasattr(t, attr) for t in pyt):
+                return self._no_attr(obj, attr, node, state)
             return ExtV(qual=f"number.{attr}", bound=obj)
         if isinstance(obj, (TupleV, Seq)):
+            if not hasattr(tuple, attr) and not (isinstance(obj, Seq) and obj.kind != "tuple"):
+                return self._no_attr(obj, attr, node, state)
             return ExtV(qual=f"tuple.{attr}", bound=obj)
         if isinstance(obj, FuncV):
             if attr in ("__name__", "__qualname__"):
@@ -686,6 +698,11 @@ class ExprMixin:
             self.do_raise(state, "AttributeError", node, implicit=True, mro=("AttributeError", "Exception"))
             return Bottom()
         return Top("attr")
+
+    def _no_attr(self, obj: Val, attr: str, node, state: State) -> Val:
+        self.event("missing-attr", node, cls=None, attr=attr, on=obj)
+        self.do_raise(state, "AttributeError", node, implicit=True, mro=("AttributeError", "Exception"))
+        return Bottom()
 
     def store_attr(self, obj: Val, attr: str, v: Val, state: State, node) -> None:
         if isinstance(obj, Union):
